@@ -133,12 +133,16 @@ func (e *Env) DeleteGlobal(symbol string) {
 		return
 	}
 
-	e.rwMutex.RLock()
+	// check and delete under one lock acquisition, so that two concurrent
+	// calls cannot both act on the same binding
+	e.rwMutex.Lock()
 	_, ok := e.values[symbol]
-	e.rwMutex.RUnlock()
+	if ok {
+		delete(e.values, symbol)
+	}
+	e.rwMutex.Unlock()
 
 	if ok {
-		e.Delete(symbol)
 		return
 	}
 
